@@ -1,5 +1,6 @@
 // C17: SearchableObjectHolder is an atomic, memory-safe name-to-object map
 #define HX_MAIN
+#include <map>
 #include <memory>
 #include <string>
 #include "common.h"
@@ -10,7 +11,7 @@ using namespace mcrt;
 namespace {
 constexpr int NN = 3;  // names
 const char* const NAMES[NN] = {"a", "b", "c_name_that_is_longer_than_the_small_string_buffer"};
-constexpr int MAXID = 16;
+constexpr int MAXID = 64;
 int g_alive[MAXID];
 int g_next_id;
 struct Obj;
@@ -375,9 +376,95 @@ void body(const Prog& p)
     MC_CHECK(live_blocks() == base_blocks, "leak", "%zu arena blocks not freed", live_blocks() - base_blocks);
 }
 
+// Scale: a map with many names, checked against std::map after every phase (thresholds, caches, ordering among many
+// entries); one client, every call compared with the reference.
+void body_scale(int n)
+{
+    memset(g_alive, 0, sizeof g_alive);
+    size_t base_blocks = live_blocks();
+    SOH* h = new SOH();
+    g_keep = nullptr;
+    struct E {
+        int id;
+        int tag;  // 0 = none
+    };
+    std::map<std::string, E> ref;
+    auto name = [](int i) {
+        char b[64];
+        snprintf(b, sizeof b, i % 5 == 4 ? "n%02d_with_a_suffix_longer_than_the_small_string_buffer" : "n%02d", i);
+        return std::string(b);
+    };
+    auto check_all = [&](const char* when) {
+        for (int i = 0; i < n + 2; i++) {
+            std::string nm = i < n ? name(i) : (i == n ? std::string("zz_alias") : std::string("absent"));
+            auto it = ref.find(nm);
+            int got = use_obj(h->findObject(nm), "findObject");
+            MC_CHECK(got == (it == ref.end() ? 0 : it->second.id), "find-mismatch", "%s: findObject(%s) gives %d", when, nm.c_str(), got);
+            for (int t = 1; t <= 3; t++)
+                MC_CHECK(h->checkObjectType(nm, t) == (it != ref.end() && it->second.tag == t), "type-mismatch",
+                         "%s: checkObjectType(%s,%d) disagrees with the reference", when, nm.c_str(), t);
+        }
+        auto v = h->getObjects();
+        MC_CHECK(v.size() == ref.size(), "getObjects-mismatch", "%s: getObjects returns %zu objects, reference has %zu", when, v.size(), ref.size());
+        for (auto& sp : v) (void)use_obj(sp, "getObjects");
+        MC_CHECK(h->empty() == ref.empty(), "empty-mismatch", "%s: empty() disagrees with the reference", when);
+        for (int t = 1; t <= 3; t++) {
+            int expect = 0;
+            for (auto& kv : ref)
+                if (kv.second.tag == t && kv.second.id % 2 == 1) {
+                    expect = kv.second.id;
+                    break;
+                }
+            int got = use_obj(h->findObject([](const SP& p) { return p->id % 2 == 1; }, t), "findObject(pred,type)");
+            MC_CHECK(got == expect, "findpredtype-mismatch", "%s: findObject(odd id, type %d) gives %d, reference %d", when, t, got, expect);
+        }
+    };
+    for (int i = 0; i < n; i++) {
+        int id = i + 1;
+        bool ok = (i % 2 == 0) ? h->addObject(name(i), std::make_shared<Obj>(id), i % 3 + 1) : h->addObject(name(i), std::make_shared<Obj>(id));
+        MC_CHECK(ok, "result-mismatch", "addObject(%s) refused on a fresh name", name(i).c_str());
+        ref[name(i)] = E{id, i % 2 == 0 ? i % 3 + 1 : 0};
+    }
+    MC_CHECK(!h->addObject(name(n / 2), std::make_shared<Obj>(n + 5)), "result-mismatch", "duplicate addObject accepted");
+    check_all("after the adds");
+    MC_CHECK(h->copyObject(name(0), "zz_alias"), "result-mismatch", "copyObject refused");
+    ref["zz_alias"] = ref[name(0)];
+    for (int i = 0; i < n; i += 3) {
+        MC_CHECK(h->removeObject(name(i)), "result-mismatch", "removeObject(%s) failed", name(i).c_str());
+        ref.erase(name(i));
+    }
+    check_all("after removing every third name");
+    for (;;) {
+        bool r = h->removeObject([](const SP& p) { return p->id % 2 == 0; });
+        auto it = ref.begin();
+        while (it != ref.end() && it->second.id % 2 != 0) ++it;
+        MC_CHECK(r == (it != ref.end()), "result-mismatch", "removeObject(even id) returned %d", (int)r);
+        if (!r) break;
+        ref.erase(it);  // the first match in name order
+    }
+    check_all("after removing all even ids");
+    while (!ref.empty()) {
+        MC_CHECK(h->removeObject(ref.begin()->first), "result-mismatch", "removeObject failed while draining");
+        ref.erase(ref.begin());
+    }
+    check_all("after draining");
+    delete h;
+    for (int i = 1; i < MAXID; i++) MC_CHECK(!g_alive[i], "object-leak", "object %d still alive after the holder was emptied and destroyed", i);
+    MC_CHECK(live_blocks() == base_blocks, "leak", "%zu arena blocks not freed", live_blocks() - base_blocks);
+}
+
 void make_items(const Options& o, std::vector<Item>& items)
 {
     bool thorough = o.tier == "thorough";
+    for (int n : {10, 33, 50}) {
+        if (n == 50 && !thorough) continue;
+        Item it;
+        it.name = "SearchableObjectHolder scale: " + std::to_string(n) + " names, typed and untyped adds, alias, removal by name and by predicate, every query against std::map";
+        it.body = [n] { body_scale(n); };
+        it.bounds = hx::tier_bounds(o, 0, 0);
+        it.bounds.max_steps = 200000;
+        items.push_back(it);
+    }
     auto add = [&](const Prog& p, int Pq, int Pt) {
         Item it;
         it.name = text(p);
